@@ -111,7 +111,7 @@ static void c04_run(uint64_t seed, uint64_t index, bool thorough) {
     // an encoding of another type for splices
     std::map<int, Bytes> enc;
     static const Syntax syns[] = {SY_DER, SY_OER, SY_XER, SY_UPER};
-    for(Syntax sy : syns) { EncResult e = encode_to_vec(td, vc.st, sy); if(!e.aborted && e.encoded >= 0 && e.out.size() <= 32768) enc[sy] = e.out; }
+    for(Syntax sy : syns) { EncResult e = encode_to_vec(td, vc.st, sy); if(!e.aborted && e.encoded >= 0 && e.out.size() <= 100000) enc[sy] = e.out; }
     Bytes other;
     { Rng ro = stream(seed, "other"); asn_TYPE_descriptor_t *ot = choose_type(ro);
       if(fillable(ot)) { void *ov = random_value(ot, ro.next(), 60); if(ov) { EncResult e = encode_to_vec(ot, ov, r.chance(1, 2) ? SY_DER : SY_XER); if(e.encoded >= 0) other = e.out; free_struct(ot, ov); } } }
@@ -128,7 +128,7 @@ static void c04_run(uint64_t seed, uint64_t index, bool thorough) {
             if(sy == SY_DER && r.chance(1, 3)) { Bytes var; VariantStats vs; Rng rv(r.next()); if(ber_variant(D, rv, var, vs, &hints)) { D = var; G.add("c04.variant.segmented", vs.segmented); } }
             if(q == 0) { /* truncation at a seeded offset only */ if(!D.empty()) D.resize((size_t)r.below(D.size())); applied.push_back("truncate"); }
             else transport_damage(D, r, &other, applied, 1 + (unsigned)r.below(4));
-            if(D.size() > 65536) D.resize(65536);
+            if(D.size() > 131072) D.resize(131072);
             for(auto &a : applied) G.add("c04.fired." + a);
             Plan head;
             head.set("property", "C04"); head.set("program", SIM_PROGRAM); head.set("type", td->name); head.set("syntax", syntax_name(sy));
